@@ -349,3 +349,197 @@ def feature_cases(rng, quick_budget=None, with_gated=None):
         mo = ["features.%s = %s" % rng.choice(FEATURE_VALUES)] if rng.chance(1, 5) else []
         add(render_field(sh, opts, file_opts=fo, msg_opts=mo), "pair", field_traits(sh, opts, fo))
     return out, withheld
+
+
+# ---------------------------------------------------------------- the `numbers` stratum: every number-conflict rule
+# The class: ONE number-conflict situation per file - a field / enum value number against the reserved numbers and ranges of its
+# message / enum, against an extension range, against another field / value (duplicates, aliases), an extension number against
+# the extension and reserved ranges of its extendee, and two ranges against each other - for enums without allow_alias, with
+# allow_alias = true (with a genuine alias pair, which may or may not be the colliding value) and allow_alias = false, and for
+# messages, in proto2 / proto3 / edition 2023; the colliding number at every position relative to the range (below, start, inside,
+# end, above), the range statement before or after the declarations, the colliding declaration first, in the middle or last.
+# Nothing here decides what is valid: the oracle is the agreement of the two compilers.
+
+NUM_SYNTAXES = [("proto2", 'syntax = "proto2";', "optional "), ("proto3", 'syntax = "proto3";', ""), ("editions", 'edition = "2023";', "")]
+
+# reserved / extension range statements over small numbers: (name, text, [numbers worth probing])
+RANGE_SPECS = [
+    ("single", "5", [4, 5, 6]),
+    ("range", "5 to 7", [4, 5, 6, 7, 8]),
+    ("range-one", "6 to 6", [5, 6, 7]),
+    ("to-max", "5 to max", [4, 5, 6, 100000]),
+    ("list", "3, 5 to 7, 9", [3, 4, 6, 9, 10]),
+    ("two-statements", "9;\n  RANGE 5 to 6", [5, 6, 7, 9]),
+]
+ENUM_NEG_SPECS = [("negative", "-7 to -5", [-8, -7, -6, -5, -4]), ("around-zero", "-1 to 1", [-2, -1, 1, 2]), ("min-to", "-2147483648 to -5", [-2147483648, -6, -5, -4]),
+                  ("max-single", "2147483647", [2147483646, 2147483647])]
+ALIAS_MODES = ["none", "true", "false", "true-no-pair"]
+# who carries the probed number in an enum: a value that has no alias, the first / second name of the alias pair, both names of the
+# pair (the pair itself sits on the probed number), a value declared before / after everything else
+ENUM_WHO = ["plain-last", "plain-middle", "pair-first", "pair-second", "pair-both", "plain-and-pair"]
+
+
+def render_enum_numbers(head, alias, spec_text, num, who, stmt_first, extra_dup=False):
+    """enum E with a reserved statement and values; `num` is the probed number"""
+    vals = [("E0", 0)]
+    pair = alias in ("true", "false")          # an alias pair exists (legal only under allow_alias = true)
+    if who == "plain-last":
+        vals += ([("P1", 1), ("P2", 1)] if pair else [("P1", 1)]) + [("X", num)]
+    elif who == "plain-middle":
+        vals += [("X", num)] + ([("P1", 1), ("P2", 1)] if pair else [("P1", 1)])
+    elif who == "pair-first":
+        vals += [("X", num), ("P1", 1), ("X2", num)] if pair else [("X", num), ("P1", 1)]
+    elif who == "pair-second":
+        vals += [("P1", 1), ("X", num), ("Y", 2), ("X2", num)] if pair else [("P1", 1), ("Y", 2), ("X", num)]
+    elif who == "pair-both":
+        vals += [("X", num), ("X2", num)] if pair else [("X", num)]
+    else:
+        vals += ([("P1", 1), ("P2", 1)] if pair else [("P1", 1)]) + [("X", num), ("Y", 2), ("X2", num)]
+    if extra_dup:
+        vals.append(("D", 0))
+    body = []
+    if alias in ("true", "true-no-pair"):
+        body.append("  option allow_alias = true;")
+    elif alias == "false":
+        body.append("  option allow_alias = false;")
+    res = "  reserved %s;" % spec_text.replace("RANGE", "reserved")
+    if stmt_first:
+        body.append(res)
+    body += ["  %s = %d;" % v for v in vals]
+    if not stmt_first:
+        body.append(res)
+    return "%s\nenum E {\n%s\n}\nmessage M { %sE e = 1; }\n" % (head[1], "\n".join(body), head[2])
+
+
+MSG_FIELD_KINDS = ["plain", "repeated", "oneof", "map", "message", "group", "nested-decl"]
+
+
+def render_msg_numbers(head, stmt, spec_text, num, kind, stmt_first, pos):
+    """message M with a reserved / extensions statement and one field of the kind carrying the probed number"""
+    syn, line, lab = head
+    if kind == "plain":
+        f = "  %sint32 x = %d;" % (lab, num)
+    elif kind == "repeated":
+        f = "  repeated string x = %d;" % num
+    elif kind == "oneof":
+        f = "  oneof o {\n    int32 x = %d;\n    string y = 30;\n  }" % num
+    elif kind == "map":
+        f = "  map<string, int32> x = %d;" % num
+    elif kind == "message":
+        f = "  %sM x = %d;" % (lab, num)
+    elif kind == "group":
+        f = "  optional group X = %d { optional int32 gx = 1; }" % num
+    else:
+        f = "  message Inner { %sint32 x = %d; }" % (lab, num)      # the number belongs to another message: never a conflict
+    others = ["  %sint32 a = 1;" % lab, "  %sstring b = 2;" % lab]
+    st = "  %s %s;" % (stmt, spec_text.replace("RANGE", stmt))
+    decl = others[:pos] + [f] + others[pos:]
+    body = ([st] + decl) if stmt_first else (decl + [st])
+    return "%s\nmessage M {\n%s\n}\n" % (line, "\n".join(body))
+
+
+def number_cases(rng, quick_budget=None):
+    """(files, request, klass) triples; klass = numbers/<sub-stratum>"""
+    out = []
+
+    thin = {"enum-duplicates": 2, "enum-ranges": 2, "message-duplicates": 2, "message-ranges": 2, "extension-number": 3}
+    counters = {}
+
+    def add(text, sub):
+        # quick tier: of the small complete products every second / third member, starting at a random one (the thorough tier: all)
+        t = thin.get(sub.split(":")[0])
+        if quick_budget is not None and t:
+            if sub not in counters:
+                counters[sub] = rng.below(t)
+            counters[sub] += 1
+            if counters[sub] % t:
+                return
+        out.append(({"t.proto": text}, ["t.proto"], "numbers/" + sub))
+
+    def pick(product, budget, keyf):
+        if quick_budget is None or len(product) <= budget:
+            return product
+        seen, first, rest = set(), [], []
+        for item in rng.shuffle(product):
+            k = keyf(item)
+            if k in seen:
+                rest.append(item)
+            else:
+                seen.add(k)
+                first.append(item)
+        return first + rest[:max(0, budget - len(first))]
+
+    def posclass(spec, num):
+        return "%s@%d" % (spec[0], spec[2].index(num))
+
+    b = (lambda n: None) if quick_budget is None else (lambda n: max(1, quick_budget * n // 100))
+    # 1. enum value number vs reserved numbers / ranges: syntax x allow_alias mode x range x position x who x statement order
+    prod = [(h, a, sp, n, w, sf) for h in NUM_SYNTAXES for a in ALIAS_MODES for sp in RANGE_SPECS + ENUM_NEG_SPECS for n in sp[2]
+            for w in ENUM_WHO for sf in (True, False)]
+    # quick: one member of every (alias mode, range, position, who) - syntax and statement order vary at random -, then random members
+    for h, a, sp, n, w, sf in pick(prod, b(40), lambda it: (it[1], posclass(it[2], it[3]), it[4]) if it[2][0] == "range" else (it[1], posclass(it[2], it[3]))):
+        add(render_enum_numbers(h, a, sp[1], n, w, sf), "enum-reserved:alias-" + a)
+    # 2. duplicates in enums with nothing reserved: every alias mode x which values coincide (incl. with the zero value)
+    for h in NUM_SYNTAXES:
+        for a in ALIAS_MODES:
+            for vals in (["A = 0", "B = 1", "C = 1"], ["A = 0", "B = 0"], ["A = 0", "B = 1", "C = 2", "D = 1"], ["A = 0", "B = 1", "C = 2"],
+                         ["A = 0", "B = -1", "C = -1"], ["A = 0", "B = 1", "C = 0x1"], ["A = 0", "B = 1", "C = 01"], ["A = 0", "B = 1", "C = 1", "D = 1"],
+                         ["A = 0", "B = 2147483647", "C = 2147483647"], ["A = 0", "B = -2147483648", "C = -2147483648"]):
+                o = {"none": "", "true": "option allow_alias = true; ", "false": "option allow_alias = false; ", "true-no-pair": "option allow_alias = true; "}[a]
+                if a == "true-no-pair":
+                    vals = ["A = 0", "B = 1", "C = 2"] if vals[1:] != ["B = 1", "C = 2"] else ["A = 0"]
+                add("%s\nenum E { %s%s; }\n" % (h[1], o, "; ".join(vals)), "enum-duplicates:alias-" + a)
+    # 3. enum ranges against each other, reserved names against value names
+    for h in NUM_SYNTAXES:
+        q = (lambda s: s) if h[0] == "editions" else (lambda s: '"%s"' % s)
+        for a in ("none", "true"):
+            o = "option allow_alias = true; " if a == "true" else ""
+            v = "A = 0; B = 1; C = 1; " if a == "true" else "A = 0; B = 1; "
+            for r in ("reserved 5 to 7, 6;", "reserved 5 to 7; reserved 7 to 9;", "reserved 5 to 7; reserved 8 to 9;", "reserved 5, 5;", "reserved 7 to 5;",
+                      "reserved 5 to max, 10;", "reserved -5 to -7;", "reserved %s;" % q("B"), "reserved %s;" % q("Z"), "reserved %s, %s;" % (q("Z"), q("Z")),
+                      "reserved 5 to 7; reserved %s;" % q("Y")):
+                add("%s\nenum E { %s%s%s }\n" % (h[1], o, v, r), "enum-ranges:alias-" + a)
+    # 4. message field number vs reserved / extension ranges: syntax x statement x range x position x field kind x order
+    prod = [(h, st, sp, n, k, sf, pos) for h in NUM_SYNTAXES for st in ("reserved", "extensions") for sp in RANGE_SPECS for n in sp[2]
+            for k in MSG_FIELD_KINDS for sf in (True, False) for pos in (0, 1, 2)
+            if not (k == "group" and h[0] != "proto2")]
+    for h, st, sp, n, k, sf, pos in pick(prod, b(35), lambda it: (it[1], posclass(it[2], it[3]), it[4]) if it[2][0] == "range" else (it[1], it[2][0], it[4])):
+        add(render_msg_numbers(h, st, sp[1], n, k, sf, pos), "message-%s:%s" % (st, k))
+    # 5. duplicate field numbers across kinds of member
+    members = {"plain": "%sint32 NAME = NUM;", "repeated": "repeated int32 NAME = NUM;", "map": "map<int32, int32> NAME = NUM;",
+               "oneof": "oneof o_NAME { int32 NAME = NUM; }", "message": "%sM NAME = NUM;"}
+    for h in NUM_SYNTAXES:
+        for k1 in members:
+            for k2 in members:
+                for n2 in (3, 4):
+                    m1 = members[k1].replace("NAME", "x").replace("NUM", "3")
+                    m2 = members[k2].replace("NAME", "y").replace("NUM", str(n2))
+                    m1 = m1 % h[2] if "%s" in m1 else m1
+                    m2 = m2 % h[2] if "%s" in m2 else m2
+                    if n2 == 4 and k1 != "plain":
+                        continue
+                    add("%s\nmessage M {\n  %s\n  %sint32 a = 1;\n  %s\n}\n" % (h[1], m1, h[2], m2), "message-duplicates")
+        add("%s\nmessage M {\n  oneof o { int32 x = 3; string y = 3; }\n}\n" % h[1], "message-duplicates")
+        add("%s\nmessage M {\n  %sint32 x = 3;\n  message N { %sint32 x = 3; }\n}\n" % (h[1], h[2], h[2]), "message-duplicates")
+    # 6. message ranges against each other
+    for h in NUM_SYNTAXES:
+        for r in ("reserved 5 to 7, 6;", "reserved 5 to 7; reserved 7 to 9;", "reserved 5 to 7; reserved 8 to 9;", "reserved 5, 5;", "reserved 7 to 5;",
+                  "extensions 5 to 7; reserved 6;", "extensions 5 to 7; reserved 7 to 9;", "reserved 5 to 7; extensions 8 to 9;", "extensions 5 to 7, 6;",
+                  "extensions 5 to 7; extensions 7;", "extensions 5 to 7; extensions 8;", "extensions 7 to 5;", "reserved 5 to max; extensions 100;",
+                  "extensions 5 to max; reserved 100 to max;", "extensions 5 to max; extensions 6 to max;", "reserved 0;", "extensions 0 to 5;",
+                  "reserved 536870911;", "reserved 536870912;", "extensions 536870911 to max;", "reserved 1 to 536870912;"):
+            add("%s\nmessage M {\n  %sint32 a = 1;\n  %s\n}\n" % (h[1], h[2], r), "message-ranges")
+    # 7. extension numbers against the ranges of the extendee (extendee proto2 or editions; the extension declared in any syntax that allows it)
+    for h in NUM_SYNTAXES:
+        if h[0] == "proto3":
+            continue
+        for rng_stmt in ("extensions 5 to 7;", "extensions 5 to 7; reserved 8;", "extensions 5, 7;", "extensions 5 to max;", "extensions 5 to 7; extensions 9;"):
+            for n in (4, 5, 6, 7, 8, 9, 1, 100000):
+                for where in ("top", "nested"):
+                    e = "extend M { %sint32 x = %d; }" % (h[2], n)
+                    if where == "nested":
+                        e = "message H {\n  %s\n}" % e
+                    add("%s\nmessage M {\n  %sint32 a = 1;\n  %s\n}\n%s\n" % (h[1], h[2], rng_stmt, e), "extension-number")
+        add("%s\nmessage M {\n  extensions 5 to 7;\n}\nextend M { %sint32 x = 5; }\nextend M { %sint32 y = 6; }\n" % (h[1], h[2], h[2]), "extension-number")
+        add("%s\nmessage M {\n  %sint32 a = 1;\n}\nextend M { %sint32 x = 5; }\n" % (h[1], h[2], h[2]), "extension-number")
+    return out
